@@ -466,6 +466,16 @@ func checkDetachPartition(c *Ctx) {
 					okCopy = linfo.ObjectOf(id) != nil && !isNilIdent(linfo, id) && onlySelfRefsAppended(linfo, lbody, linfo.ObjectOf(id))
 				}
 			}
+			if !okCopy && lf != fi {
+				// the loop lives in a helper: the store is in the clause, its value one of the helper's results
+				for _, rhs := range fkAssignments(c, info, cc.Body) {
+					if id, ok := ast.Unparen(rhs).(*ast.Ident); ok && !isNilIdent(info, id) {
+						if hf, hobj := resultObjOf(c, fi, info.ObjectOf(id)); hf != nil && hobj != nil && hf.Decl == lf.Decl {
+							okCopy = onlySelfRefsAppended(linfo, lbody, hobj)
+						}
+					}
+				}
+			}
 			c.Check("R04c", "detachReferences|AddTable copy keeps only self references", cc.Pos(), okCopy, "the planned copy of a detached table must have its ForeignKeys replaced by the self-referencing ones (an FK kept inline points at a table that may not exist yet)")
 			// each FK goes to exactly one of the two lists
 			checkFKSplit(c, linfo, lbody, cc.Pos())
@@ -474,7 +484,7 @@ func checkDetachPartition(c *Ctx) {
 			lf, lbody := fkLoopCtx(cc)
 			linfo := lf.Info()
 			okNil := false
-			for _, rhs := range fkAssignments(c, linfo, lbody) {
+			for _, rhs := range append(fkAssignments(c, linfo, lbody), fkAssignments(c, info, cc.Body)...) {
 				if isNilIdent(linfo, rhs) {
 					okNil = true
 				}
@@ -656,7 +666,98 @@ func (kr *kindResolver) elemKinds(fi *FuncInfo, e ast.Expr, depth int) map[strin
 		}
 		return true
 	})
+	// a list produced by a package-local helper (ext, self := split(t)): the kinds the helper puts into that result
+	if hf, hobj := resultObjOf(kr.c, fi, obj); hf != nil && hobj != nil {
+		var hid *ast.Ident
+		ast.Inspect(hf.Decl, func(m ast.Node) bool {
+			if x, ok := m.(*ast.Ident); ok && hf.Info().ObjectOf(x) == hobj && hid == nil {
+				hid = x
+			}
+			return hid == nil
+		})
+		if hid != nil {
+			for k := range kr.elemKinds(hf, hid, depth+1) {
+				out[k] = true
+			}
+		}
+	}
 	return out
+}
+
+// resultObjOf: obj is defined once, in fi, from the i-th result of a call of a module-local function; returns that
+// function and the variable that holds its i-th result (the named result, or the identifier every return hands back).
+func resultObjOf(c *Ctx, fi *FuncInfo, obj types.Object) (*FuncInfo, types.Object) {
+	info := fi.Info()
+	var call *ast.CallExpr
+	idx, defs := 0, 0
+	ast.Inspect(fi.Decl.Body, func(m ast.Node) bool {
+		as, ok := m.(*ast.AssignStmt)
+		if !ok {
+			return true
+		}
+		for i, l := range as.Lhs {
+			if id, ok := l.(*ast.Ident); ok && info.ObjectOf(id) == obj {
+				defs++
+				if len(as.Rhs) == 1 {
+					if cl, ok := ast.Unparen(as.Rhs[0]).(*ast.CallExpr); ok {
+						call, idx = cl, i
+					}
+				}
+			}
+		}
+		return true
+	})
+	if defs != 1 || call == nil {
+		return nil, nil
+	}
+	fn := calleeOf(info, call)
+	if fn == nil || fn.Pkg() == nil || !strings.HasPrefix(fn.Pkg().Path(), modRoot) {
+		return nil, nil
+	}
+	hf := c.FuncInfoOf(fn)
+	if hf == nil || hf.Decl.Body == nil || hf.Decl.Type.Results == nil {
+		return nil, nil
+	}
+	hinfo := hf.Info()
+	// named result
+	k := 0
+	for _, fld := range hf.Decl.Type.Results.List {
+		if len(fld.Names) == 0 {
+			k++
+			continue
+		}
+		for _, nm := range fld.Names {
+			if k == idx {
+				return hf, hinfo.ObjectOf(nm)
+			}
+			k++
+		}
+	}
+	// the identifier returned at that position by every return statement
+	var ret types.Object
+	same := true
+	ast.Inspect(hf.Decl.Body, func(m ast.Node) bool {
+		if _, isLit := m.(*ast.FuncLit); isLit {
+			return false
+		}
+		if r, ok := m.(*ast.ReturnStmt); ok && idx < len(r.Results) {
+			id, ok := ast.Unparen(r.Results[idx]).(*ast.Ident)
+			if !ok {
+				same = false
+				return true
+			}
+			o := hinfo.ObjectOf(id)
+			if ret != nil && ret != o {
+				same = false
+			}
+			ret = o
+		}
+		return true
+	})
+	if !same {
+		return nil, nil
+	}
+	return hf, ret
 }
 
 // checkFKSplit: in the AddTable case the loop over the table's foreign keys
@@ -937,7 +1038,35 @@ func checkDependencyEdges(c *Ctx) {
 			return true
 		}
 		n++
-		key, val := types.ExprString(ix.Index), types.ExprString(call.Args[1])
+		// locals defined once from a selector chain (parent := fk.RefTable) are read as what they stand for
+		var expand func(e ast.Expr) string
+		expand = func(e ast.Expr) string {
+			switch x := ast.Unparen(e).(type) {
+			case *ast.Ident:
+				obj := info.ObjectOf(x)
+				var defs []ast.Expr
+				ast.Inspect(fi.Decl.Body, func(k ast.Node) bool {
+					if das, ok := k.(*ast.AssignStmt); ok && len(das.Lhs) == len(das.Rhs) {
+						for di, dl := range das.Lhs {
+							if did, ok := dl.(*ast.Ident); ok && info.ObjectOf(did) == obj {
+								defs = append(defs, das.Rhs[di])
+							}
+						}
+					}
+					return true
+				})
+				if len(defs) == 1 {
+					if _, isSel := ast.Unparen(defs[0]).(*ast.SelectorExpr); isSel {
+						return expand(defs[0])
+					}
+				}
+				return x.Name
+			case *ast.SelectorExpr:
+				return expand(x.X) + "." + x.Sel.Name
+			}
+			return types.ExprString(e)
+		}
+		key, val := expand(ix.Index), expand(call.Args[1])
 		// facts established by the enclosing if-branches
 		var facts []fact
 		var child ast.Node = as
@@ -968,13 +1097,13 @@ func checkDependencyEdges(c *Ctx) {
 		case isField(info, call.Args[1], pSchema, "ForeignKey", "RefTable"):
 			// add-edge K = E.Name ← F.RefTable: some fact says F.RefTable != E
 			if keySel != nil && keySel.Sel.Name == "Name" && typeIs(derefType(info.TypeOf(keySel.X)), pSchema, "Table") {
-				e := types.ExprString(keySel.X)
+				e := expand(keySel.X)
 				for _, f := range facts {
 					be, ok := ast.Unparen(f.expr).(*ast.BinaryExpr)
 					if !ok || !(be.Op == token.NEQ && f.val || be.Op == token.EQL && !f.val) {
 						continue
 					}
-					x, y := types.ExprString(be.X), types.ExprString(be.Y)
+					x, y := expand(be.X), expand(be.Y)
 					if x == val && y == e || y == val && x == e {
 						ok2 = true
 					}
@@ -985,7 +1114,7 @@ func checkDependencyEdges(c *Ctx) {
 			fk := strings.TrimSuffix(val, ".Table")
 			if key == fk+".RefTable.Name" {
 				for _, f := range facts {
-					if cl, ok := ast.Unparen(f.expr).(*ast.CallExpr); ok && f.val && funcIs(calleeOf(info, cl), pSqlx, "", "isDropped") && len(cl.Args) == 2 && types.ExprString(cl.Args[1]) == fk+".RefTable" {
+					if cl, ok := ast.Unparen(f.expr).(*ast.CallExpr); ok && f.val && funcIs(calleeOf(info, cl), pSqlx, "", "isDropped") && len(cl.Args) == 2 && expand(cl.Args[1]) == fk+".RefTable" {
 						ok2 = true
 					}
 				}
